@@ -365,6 +365,20 @@ def check(ctx):
     with ctx.shared({'C09': 'C10.1'}):
         c09.writer_callers(ctx, ctx.index.get_class(K.MASTER, 'Master'),
                            rule='C10.1')
+        # an instance leaves the model (and with it its placement) only
+        # through Loader.remove_app, which the master overrides to delete
+        # the record first - and instances are taken off a server outside a
+        # cycle only by the routines that deal with the records
+        c09._removal(ctx, ctx.index.get_class(K.MASTER, 'Master'))
+        c09.unplacement_callers(ctx, ctx.index.get_class(K.MASTER, 'Master'),
+                                rule='C10.1')
+    # shared with C03.4: the first pass of a cycle looks at every placed
+    # instance - the passes after it index the member servers by what is
+    # left in app.server, so an instance it passes over (its server left the
+    # cell) ends the start-up cycle of a new master with an error
+    from . import c03
+    with ctx.shared({'C03': 'C10.3'}):
+        c03._revalidation(ctx, N.Normaliser())
 
 
 def _feeder(ctx, loader, nz, rule='C10.3'):
